@@ -49,7 +49,7 @@ class C19(Profile):
               'cross_category_name', 'extension_name_form', 'failed_registration_checked', 'parse_registered_custom',
               'parse_unregistered_strict_refused', 'parse_unregistered_custom_mode_dict', 'version_scoped_negative',
               'custom_roundtrip', 'custom_new_version', 'custom_store_roundtrip', 'custom_marking_used', 'custom_extension_used',
-              'either_name', 'extension_name_taken']
+              'either_name', 'extension_name_taken', 'toplevel_extension_used']
     rule = ('plans: 20-60 ops: registrations through the four decorators of both spec versions with names from a pool of fresh, already '
             'taken (built-in, earlier in the run, other category) and rule-breaking names and with legal / rule-breaking property lists, the '
             'extension_name form; interleaved with parse (strict/custom mode, version named or not), class_for_type, construction, '
@@ -188,6 +188,8 @@ class C19(Profile):
         if op.get('ext_name') and ver == '2.1' and kind in ('object', 'observable'):
             # a small pool of extension-definition ids, so that the same id is asked for again later
             ext_name = 'extension-definition--' + C.mkuuid(op['a'] % 3 if op['a'] % 5 else op['n'], 'c19ext')
+            if op['a'] % 7 == 0:
+                ext_name = 'x-sim-plain-%d-ext' % (op['a'] % 2)       # a legal 2.1 extension name that is not an extension-definition id
             world.probe('extension_name_form')
 
         # ---- expectation ----
@@ -371,8 +373,53 @@ class C19(Profile):
         world.log(op='lookup', name=name[:30])
 
     # -- custom instances enjoy the usual guarantees ---------------------------------------
+    def use_toplevel(self, op):
+        """A registered toplevel-property-extension: its properties become ordinary (non-custom) top-level properties."""
+        s, world = self.s, self.world
+        from stix2.properties import IntegerProperty
+        ext_id = 'extension-definition--' + C.mkuuid(7, 'c19tl')
+        if ext_id not in self.model['2.1']['extensions']:
+            def reg():
+                @s.v21.CustomExtension(ext_id, [('rank', IntegerProperty(required=True)), ('toxicity', IntegerProperty())])
+                class TopLevel(object):
+                    extension_type = 'toplevel-property-extension'
+                return TopLevel
+            o = call(reg)
+            if not o.ok:
+                raise Violation('registration-accepted', 'C19.refused-valid/toplevel-extension/%s' % type(o.exc).__name__, dict(exc=repr(o.exc)[:300]))
+            self.model['2.1']['extensions'][ext_id] = o.value
+            world.changed()
+        n = op['n']
+        kw = dict(id=C.mkid('identity', n, 'c19'), created='2017-01-01T00:00:00.000Z', modified='2017-01-01T00:00:00.000Z', name='tl',
+                  rank=op['a'] % 100, extensions={ext_id: {'extension_type': 'toplevel-property-extension'}})
+        o = call(lambda: s.v21.Identity(**kw))
+        if not o.ok:
+            raise Violation('custom-instances', 'C19.use/toplevel-construct-refused/%s' % type(o.exc).__name__, dict(exc=repr(o.exc)[:300]))
+        obj = o.value
+        if obj.has_custom:
+            raise Violation('custom-instances', 'C19.use/toplevel-flagged-custom', dict(obj=obj.serialize()[:300]))
+        text = obj.serialize()
+        back = call(s.parse, text)
+        if not back.ok or type(back.value) is not type(obj) or back.value != obj or back.value.serialize() != text:
+            raise Violation('custom-instances', 'C19.use/toplevel-roundtrip', dict(text=text[:300], exc=repr(back.exc)[:200] if not back.ok else None))
+        world.clock.set(1600000000000000 + n)
+        nv = call(obj.new_version, toxicity=3)
+        if not nv.ok or nv.value['rank'] != obj['rank'] or nv.value.get('toxicity') != 3 or nv.value['id'] != obj['id']:
+            raise Violation('custom-instances', 'C19.use/toplevel-new_version', dict(exc=repr(nv.exc)[:200] if not nv.ok else None))
+        bad = call(lambda: s.v21.Identity(**dict(kw, rank='not-a-number')))
+        if bad.ok:
+            raise Violation('custom-instances', 'C19.use/toplevel-validation-skipped', dict(rank=bad.value['rank']))
+        unknown = call(lambda: s.v21.Identity(**dict(kw, unknown_top=1)))
+        if unknown.ok:
+            raise Violation('custom-instances', 'C19.use/toplevel-unknown-property-accepted', dict())
+        world.probe('toplevel_extension_used')
+        world.compared()
+        world.log(op='use_toplevel')
+
     def op_use(self, op):
         s, world = self.s, self.world
+        if op['a'] % 6 == 0:
+            return self.use_toplevel(op)
         if not self.mine:
             return
         keys = sorted(self.mine)
